@@ -61,7 +61,7 @@ func (x *Exec) crossCheck(ctx string, st *Step) { //nolint:cyclop,gocyclo
 	if x.stop {
 		return
 	}
-	if x.w.cbActive > 0 {
+	if x.w.callbacksActive() > 0 {
 		return // a slow callback is still running: not a quiescent point for state listings
 	}
 	// allocation count
